@@ -68,6 +68,7 @@ public:
      * @param TheMatchPattern The match pattern
      * @param thePatternString the pattern string
      * @param thePriority The priority for the match pattern.
+     * @param theAlternative The index of the alternative of the match pattern this entry stands for
      */
     XalanMatchPatternData(
             MemoryManager&      theManager,
@@ -76,13 +77,15 @@ public:
             const XalanDOMString&   theTargetString,
             const XPath&            theMatchPattern,
             const XalanDOMString&   thePatternString,
-            eMatchScore             thePriority) :
+            eMatchScore             thePriority,
+            size_type               theAlternative = 0) :
         m_template(&theTemplate),
         m_position(thePosition),
         m_targetString(theTargetString, theManager),
         m_matchPattern(&theMatchPattern),
         m_pattern(&thePatternString),
-        m_priority(thePriority)
+        m_priority(thePriority),
+        m_alternative(theAlternative)
     {
     }
 
@@ -154,6 +157,38 @@ public:
     double
     getPriorityOrDefault() const;
 
+    /**
+     * Retrieve the index of the alternative of the match pattern
+     * ("a | b" has the alternatives 0 and 1) this entry stands for.
+     * XSLT 1.0, section 5.5: a template rule with a union pattern is
+     * equivalent to a set of rules, one for each alternative.
+     *
+     * @return The index of the alternative
+     */
+    size_type
+    getAlternative() const
+    {
+        return m_alternative;
+    }
+
+    /**
+     * Match this entry's alternative of the pattern against a node.
+     *
+     * @return The match score, eMatchScoreNone if the alternative does not match
+     */
+    eMatchScore
+    getMatchScore(
+            XalanNode*              theNode,
+            const PrefixResolver&   theResolver,
+            XPathExecutionContext&  theExecutionContext) const
+    {
+        return m_matchPattern->getMatchScore(
+                    theNode,
+                    theResolver,
+                    theExecutionContext,
+                    m_alternative);
+    }
+
 private:
     // not implemented
     XalanMatchPatternData();
@@ -170,6 +205,8 @@ private:
     const XalanDOMString*   m_pattern;
 
     eMatchScore             m_priority;
+
+    size_type               m_alternative;
 };
 
 
